@@ -10,6 +10,7 @@ import (
 	"strings"
 	"sync"
 	"sync/atomic"
+	"time"
 
 	"github.com/csgura/fp"
 	"github.com/csgura/fp/lazy"
@@ -71,6 +72,43 @@ func evOf(s *Sx) Ev {
 	case "tailCall":
 		id, e := a[1].Int(), a[2]
 		return lazy.TailCall(func() Ev { Emit("t%d", id); return evOf(e) })
+	case "tailCallN":
+		id := a[1].Int()
+		xs := []int{}
+		for _, x := range a[2:] {
+			xs = append(xs, x.Int())
+		}
+		body := func(args ...int) Ev {
+			parts := make([]string, len(args))
+			t := 0
+			for i, x := range args {
+				parts[i] = fmt.Sprint(x)
+				t += (i + 1) * x
+			}
+			Emit("t%d:%s", id, strings.Join(parts, ","))
+			return lazy.Done(t)
+		}
+		switch len(xs) {
+		case 1:
+			return lazy.TailCall1(func(a1 int) Ev { return body(a1) }, xs[0])
+		case 2:
+			return lazy.TailCall2(func(a1, a2 int) Ev { return body(a1, a2) }, xs[0], xs[1])
+		case 3:
+			return lazy.TailCall3(func(a1, a2, a3 int) Ev { return body(a1, a2, a3) }, xs[0], xs[1], xs[2])
+		case 4:
+			return lazy.TailCall4(func(a1, a2, a3, a4 int) Ev { return body(a1, a2, a3, a4) }, xs[0], xs[1], xs[2], xs[3])
+		case 5:
+			return lazy.TailCall5(func(a1, a2, a3, a4, a5 int) Ev { return body(a1, a2, a3, a4, a5) }, xs[0], xs[1], xs[2], xs[3], xs[4])
+		case 6:
+			return lazy.TailCall6(func(a1, a2, a3, a4, a5, a6 int) Ev { return body(a1, a2, a3, a4, a5, a6) }, xs[0], xs[1], xs[2], xs[3], xs[4], xs[5])
+		case 7:
+			return lazy.TailCall7(func(a1, a2, a3, a4, a5, a6, a7 int) Ev { return body(a1, a2, a3, a4, a5, a6, a7) }, xs[0], xs[1], xs[2], xs[3], xs[4], xs[5], xs[6])
+		case 8:
+			return lazy.TailCall8(func(a1, a2, a3, a4, a5, a6, a7, a8 int) Ev { return body(a1, a2, a3, a4, a5, a6, a7, a8) }, xs[0], xs[1], xs[2], xs[3], xs[4], xs[5], xs[6], xs[7])
+		case 9:
+			return lazy.TailCall9(func(a1, a2, a3, a4, a5, a6, a7, a8, a9 int) Ev { return body(a1, a2, a3, a4, a5, a6, a7, a8, a9) }, xs[0], xs[1], xs[2], xs[3], xs[4], xs[5], xs[6], xs[7], xs[8])
+		}
+		panic("bad arity")
 	case "tailCall2":
 		id := a[1].Int()
 		return lazy.TailCall2(func(x, y int) Ev { Emit("t%d:%d,%d", id, x, y); return lazy.Done(x - y) }, a[2].Int(), a[3].Int())
@@ -107,6 +145,15 @@ func strict(s *Sx) int {
 	case "tailCall":
 		Emit("t%d", a[1].Int())
 		return strict(a[2])
+	case "tailCallN":
+		parts := []string{}
+		t := 0
+		for i, x := range a[2:] {
+			parts = append(parts, fmt.Sprint(x.Int()))
+			t += (i + 1) * x.Int()
+		}
+		Emit("t%d:%s", a[1].Int(), strings.Join(parts, ","))
+		return t
 	case "tailCall2":
 		Emit("t%d:%d,%d", a[1].Int(), a[2].Int(), a[3].Int())
 		return a[2].Int() - a[3].Int()
@@ -167,6 +214,13 @@ func genE(r *Rng, d int) *Sx {
 		case 4:
 			return L(A("tailCall3"), I(NewID()), I(r.Range(-5, 9)), I(r.Range(-5, 9)), I(r.Range(-5, 9)))
 		case 5:
+			if r.Bool() {
+				xs := []*Sx{A("tailCallN"), I(NewID())}
+				for i, n := 0, r.Range(1, 9); i < n; i++ {
+					xs = append(xs, I(r.Range(-5, 9)))
+				}
+				return L(xs...)
+			}
 			return L(A("tailLoop"), I(r.Range(0, 40)), I(r.Range(-5, 9)))
 		}
 		return L(A("done"), I(r.Range(-5, 9)))
@@ -202,14 +256,36 @@ func callDepth() int {
 	return runtime.Callers(0, pcs)
 }
 
-func deepLoop(n, acc int) Ev {
+// deepLoopN: the canonical tail-recursive loop written with TailCall<arity> (0 = plain TailCall)
+func deepLoopN(arity, n, acc int) Ev {
 	if n%1000 == 7 {
 		depthProbe = append(depthProbe, callDepth())
 	}
 	if n == 0 {
 		return lazy.Done(acc)
 	}
-	return lazy.TailCall1(func(a int) Ev { return deepLoop(n-1, a) }, acc+1)
+	next := func(a int) Ev { return deepLoopN(arity, n-1, a) }
+	switch arity {
+	case 1:
+		return lazy.TailCall1(func(a int) Ev { return next(a) }, acc+1)
+	case 2:
+		return lazy.TailCall2(func(a, _ int) Ev { return next(a) }, acc+1, 0)
+	case 3:
+		return lazy.TailCall3(func(a, _, _ int) Ev { return next(a) }, acc+1, 0, 0)
+	case 4:
+		return lazy.TailCall4(func(a, _, _, _ int) Ev { return next(a) }, acc+1, 0, 0, 0)
+	case 5:
+		return lazy.TailCall5(func(a, _, _, _, _ int) Ev { return next(a) }, acc+1, 0, 0, 0, 0)
+	case 6:
+		return lazy.TailCall6(func(a, _, _, _, _, _ int) Ev { return next(a) }, acc+1, 0, 0, 0, 0, 0)
+	case 7:
+		return lazy.TailCall7(func(a, _, _, _, _, _, _ int) Ev { return next(a) }, acc+1, 0, 0, 0, 0, 0, 0)
+	case 8:
+		return lazy.TailCall8(func(a, _, _, _, _, _, _, _ int) Ev { return next(a) }, acc+1, 0, 0, 0, 0, 0, 0, 0)
+	case 9:
+		return lazy.TailCall9(func(a, _, _, _, _, _, _, _, _ int) Ev { return next(a) }, acc+1, 0, 0, 0, 0, 0, 0, 0, 0)
+	}
+	return lazy.TailCall(func() Ev { return next(acc + 1) })
 }
 
 func direct(r *Rng, sink *Sink, n int, deep int) int {
@@ -227,24 +303,31 @@ func direct(r *Rng, sink *Sink, n int, deep int) int {
 	}
 	// run-once: repeated and concurrent requests
 	for i := 0; i < n/20+3; i++ {
-		v := r.Range(0, 99)
-		var cnt [5]atomic.Int64
+		v := r.Range(1, 99)
+		var cnt [7]atomic.Int64
+		slow := func(k int) int { cnt[k].Add(1); time.Sleep(300 * time.Microsecond); return v }
 		thunks := []func() int{
-			lazy.Call(func() int { cnt[0].Add(1); return v }).Get,
-			lazy.Memoize(func() int { cnt[1].Add(1); return v }),
-			fp.Memoize(func() int { cnt[2].Add(1); return v }).Apply,
+			lazy.Call(func() int { return slow(0) }).Get,
+			lazy.Memoize(func() int { return slow(1) }),
+			fp.Memoize(func() int { return slow(2) }).Apply,
 		}
-		tc := lazy.TailCall(func() Ev { cnt[3].Add(1); return lazy.Done(v) })
+		tc := lazy.TailCall(func() Ev { slow(3); return lazy.Done(v) })
 		thunks = append(thunks, tc.Get)
-		c2 := lazy.Call(func() int { cnt[4].Add(1); return v })
+		c2 := lazy.Call(func() int { return slow(4) })
 		thunks = append(thunks, lazy.Map2(c2, c2, func(a, b int) int { return (a + b) / 2 }).Get)
+		// memoised list cells: the head and tail thunks of fp.MakeList
+		cell := fp.MakeList(func() fp.Option[int] { return fp.Some(slow(5)) },
+			func() fp.List[int] { slow(6); return fp.MakeList(func() fp.Option[int] { return fp.None[int]() }, nil) })
+		thunks = append(thunks, func() int { return cell.Head() }, func() int { cell.Tail(); return v })
 		for ti, th := range thunks {
 			var wg sync.WaitGroup
 			bad := atomic.Int64{}
+			start := make(chan struct{})
 			for g := 0; g < 8; g++ {
 				wg.Add(1)
 				go func() {
 					defer wg.Done()
+					<-start
 					for k := 0; k < 3; k++ {
 						if th() != v {
 							bad.Add(1)
@@ -252,6 +335,7 @@ func direct(r *Rng, sink *Sink, n int, deep int) int {
 					}
 				}()
 			}
+			close(start)
 			wg.Wait()
 			checks++
 			if cnt[ti].Load() != 1 || bad.Load() != 0 {
@@ -261,21 +345,27 @@ func direct(r *Rng, sink *Sink, n int, deep int) int {
 		}
 	}
 	// stack safety: call depth observed inside the recursive function must not grow with n
-	depthProbe = depthProbe[:0]
-	got := lazy.Run(deepLoop(deep, 0))
-	checks++
-	minD, maxD := 1<<30, 0
-	for _, d := range depthProbe {
-		if d < minD {
-			minD = d
+	for arity := 0; arity <= 9; arity++ {
+		d := deep / 10
+		if arity == 1 {
+			d = deep
 		}
-		if d > maxD {
-			maxD = d
+		depthProbe = depthProbe[:0]
+		got := lazy.Run(deepLoopN(arity, d, 0))
+		checks++
+		minD, maxD := 1<<30, 0
+		for _, x := range depthProbe {
+			if x < minD {
+				minD = x
+			}
+			if x > maxD {
+				maxD = x
+			}
 		}
-	}
-	if got != deep || maxD-minD > 2 || maxD > 64 {
-		sink.DirectFail("lazy.TailCall/stack", fmt.Sprintf("(law stack-safe depth=%d)", deep),
-			fmt.Sprintf("result %d, call depth between %d and %d over %d probes", got, minD, maxD, len(depthProbe)))
+		if got != d || maxD-minD > 2 || maxD > 64 {
+			sink.DirectFail(fmt.Sprintf("lazy.TailCall%d/stack", arity), fmt.Sprintf("(law stack-safe arity=%d depth=%d)", arity, d),
+				fmt.Sprintf("result %d, call depth between %d and %d over %d probes", got, minD, maxD, len(depthProbe)))
+		}
 	}
 	return checks
 }
